@@ -31,6 +31,7 @@ func init() {
 	register("C02", true, func(p *core.Prog, r *core.Report, tier string) {
 		effects.PureOps(9, "Insert", "Embed", "(FeatureSlice).Insert", "*.Shift", "*.Expand")(p, r)
 		conserve.C02(p, r)
+		conserve.NoReorder(p, r, "Shift", "Expand")
 		conserve.DelegateComplemented(p, r, "Shift", "Expand")
 		conserve.PartialCarry(p, r, "Shift", "Expand")
 		siblings.Shift(p, r)
@@ -40,6 +41,9 @@ func init() {
 	register("C03", true, func(p *core.Prog, r *core.Report, tier string) {
 		effects.PureOps(11, "Delete", "Erase", "Slice", "(FeatureSlice).Filter", "(GenBankFields).Slice", "*.Shift", "*.Expand")(p, r)
 		conserve.C03(p, r)
+		conserve.AsCompleteRules(p, r)
+		conserve.NormaliseFirst(p, r, 3, core.PkgGts, core.PkgSeqio, core.PkgMain)
+		conserve.SliceRegion(p, r)
 		conserve.DelegateComplemented(p, r, "Expand")
 		conserve.Window(p, r)
 		conserve.EraseOrder(p, r)
@@ -62,6 +66,7 @@ func init() {
 		conserve.EscAutomaton(p, r)
 		orders.Compare3(p, r)
 		conserve.FilterRule(p, r)
+		conserve.QuantAll(p, r)
 		conserve.QualifierRules(p, r)
 		conserve.SelectorRules(p, r)
 		r.NotDecided = append(r.NotDecided, "selector grammar and regexp semantics", "the tie-break and the recursive cases of LocationLess", "boolean-algebra laws of And/Or/Not", "the binary search of FeatureSlice.Insert")
@@ -69,6 +74,8 @@ func init() {
 	register("C04", true, func(p *core.Prog, r *core.Report, tier string) {
 		effects.PureOps(8, "Rotate", "(FeatureSlice).Insert", "*.Shift", "*.Normalize")(p, r)
 		conserve.C04(p, r)
+		conserve.NoReorder(p, r, "Normalize", "Shift", "Expand")
+		conserve.NormaliseFirst(p, r, 3, core.PkgGts, core.PkgSeqio, core.PkgMain)
 		conserve.DelegateComplemented(p, r, "Shift", "Expand", "Normalize")
 		conserve.NormalizeArith(p, r)
 		conserve.PartialCarry(p, r, "Normalize", "Shift", "Expand")
@@ -80,6 +87,7 @@ func init() {
 	register("C05", true, func(p *core.Prog, r *core.Report, tier string) {
 		effects.PureOps(10, "Reverse", "Complement", "Transcribe", "*.Reverse", "*.Complement")(p, r)
 		conserve.C05(p, r)
+		conserve.NoReorder(p, r, "Reverse")
 		conserve.LocateRC(p, r)
 		conserve.MirrorArith(p, r)
 		conserve.DelegateComplemented(p, r, "Reverse")
@@ -90,13 +98,20 @@ func init() {
 	register("C10", true, func(p *core.Prog, r *core.Report, tier string) {
 		effects.PureOps(12, "Insert", "Embed", "Delete", "Slice", "Concat", "(FeatureSlice).Insert", "*.Shift", "*.Expand")(p, r)
 		conserve.C10(p, r)
+		conserve.AsCompleteRules(p, r)
+		conserve.NormaliseFirst(p, r, 3, core.PkgGts, core.PkgSeqio, core.PkgMain)
 		conserve.DelegateComplemented(p, r, "Shift", "Expand")
 		siblings.Shift(p, r)
 		siblings.Expand(p, r)
 	})
-	register("C08", false, func(p *core.Prog, r *core.Report, tier string) { conserve.C08(p, r) })
+	register("C08", false, func(p *core.Prog, r *core.Report, tier string) {
+		conserve.C08(p, r)
+		r.Rule("DEDUP-EXACT", "a membership helper of package main (shape func([]T, T) bool) decides membership by reflect.DeepEqual or == of the element and the candidate, nothing coarser (gts extract drops repeated regions with it: two different regions must both be extracted)", 1)
+		conserve.DedupExact(p, r)
+	})
 	register("C17", false, func(p *core.Prog, r *core.Report, tier string) {
 		tables.C17(p, r)
+		conserve.SliceRegion(p, r)
 		tables.C16(p, r) // conversion to FASTA decodes the ORIGIN block: its layout rules are necessary for "keeps residues"
 	})
 	register("C06", true, func(p *core.Prog, r *core.Report, tier string) {
@@ -104,6 +119,7 @@ func init() {
 		conserve.PushRules(p, r)
 		conserve.PushComplement(p, r)
 		conserve.PrintParse(p, r)
+		conserve.PrintTotal(p, r)
 		conserve.LocGrammar(p, r)
 	})
 	register("C15", false, func(p *core.Prog, r *core.Report, tier string) {
